@@ -77,10 +77,12 @@ type Exec struct {
 	epoch    int
 	hfacts   []*Term // instantiated axioms for uninterpreted functions (sha256)
 	happs    []*Term
+	rfcapps  []*Term
 	mon      monitors
 	newWork  []newItem
 	rep      map[*Term]*Term
 	substMemo map[*Term]*Term
+	plainVars map[*Term]bool
 	dirty    bool
 	model    assignment
 	prefixModel assignment
